@@ -402,6 +402,15 @@ func (p *Policy) sanitize(r io.Reader, w io.Writer) error {
 
 		case html.SelfClosingTagToken:
 
+			// The "/" of a self-closing tag only has a meaning on void
+			// elements. On any other element browsers ignore it, and the
+			// tokenizer goes on to deliver what follows as the content of
+			// the element, so the element counts as started.
+			_, voidElement := voidElements[token.Data]
+			if !voidElement {
+				mostRecentlyStartedToken = normaliseElementName(token.Data)
+			}
+
 			switch normaliseElementName(token.Data) {
 			case `script`:
 				if !p.allowUnsafe {
@@ -417,6 +426,10 @@ func (p *Policy) sanitize(r io.Reader, w io.Writer) error {
 			if !ok {
 				aa, matched := p.matchRegex(token.Data)
 				if !matched {
+					if _, ok := p.setOfElementsToSkipContent[token.Data]; ok && !voidElement {
+						skipElementContent = true
+						skippingElementsCount++
+					}
 					if p.addSpaces && !matched {
 						if _, err := buff.WriteString(" "); err != nil {
 							return err
